@@ -2,6 +2,7 @@ import FastorModel.Driver.Common
 import FastorModel.Driver.Expr
 import FastorModel.Model.Layout
 import FastorModel.Model.MapAlias
+import FastorModel.Model.MapAliasWide
 import FastorModel.Model.Config
 /- `layout` and `mapops` commands of the driver (C20) -/
 namespace Fastor.Driver
@@ -115,7 +116,7 @@ def runMapops (kv : List (String × String)) : String := Id.run do
   let srcN : Name := { dims := sd, isMap := kind == "raw", aligned := kind != "raw" && vectorised }
   let mapN : Name := { dims := md, isMap := true, aligned := false }
   let some prog := (opss.splitOn ",").mapM parseOp | return "bad-op"
-  let mut s : St Fp := { buf := fun p => Fp.ofTok 0 p, rd := fun v => match v with | .map => fun p => Fp.ofTok 5 p | .src => fun p => Fp.ofTok 6 p }
+  let mut s : MapAlias.St Fp := { buf := fun p => Fp.ofTok 0 p, rd := fun v => match v with | .map => fun p => Fp.ofTok 5 p | .src => fun p => Fp.ofTok 6 p }
   let mut chain : UInt64 := 0
   let mut wseq : UInt64 := 0
   let mut nw := 0
@@ -147,5 +148,93 @@ def runMapops (kv : List (String × String)) : String := Id.run do
     | _ => pure ()
     stepNo := stepNo + 1
   return s!"V={V} VAL={hex chain} WSEQ={hex wseq} NW={nw} ALNM={alnm} ALNS={alns} SAME=1 route=mapops/{kind}"
+
+/-! ### `mapwide`: three names of one storage, enlarged alphabet -/
+
+/-- the symbolic tie never divides (view writes use = += -= *=); the instance only satisfies `ViewWrite.WOp.ap` -/
+private instance : Div Fp := ⟨fun a _ => a⟩
+
+private def parseAxes (arg : String) : List ViewWrite.Ax :=
+  (arg.splitOn ".").filterMap fun t =>
+    match (t.splitOn "-").filterMap String.toNat? with
+    | [f, st, e] => some ⟨f, st, e⟩
+    | _ => none
+
+private def parseSigned (arg : String) : List Int :=
+  (arg.splitOn ".").filterMap fun t =>
+    if t.startsWith "n" then (t.drop 1).toNat?.map fun k => -(k : Int) else t.toNat?.map fun k => (k : Int)
+
+private def wop (s : String) : ViewWrite.WOp := if s == "add" then .add else if s == "sub" then .sub else if s == "mul" then .mul else .set
+private def aop (s : String) : AOp := if s == "add" then .add else if s == "sub" then .sub else if s == "mul" then .mul else .set
+
+/-- `<k>:<kind>:<arg>` -/
+private def parseOp2 (tok : String) : Option (Nat × Op2) :=
+  match tok.splitOn ":" with
+  | [ks, kind, arg] =>
+    ks.toNat?.bind fun k =>
+      if kind == "ss" then some (k, .sassign 0)
+      else if kind == "fill" then some (k, .base (.fill 0))
+      else if kind == "eadd" then some (k, .base (.expr .add (.t 1)))
+      else if kind == "wi" then some (k, .windex (parseSigned arg) 0)
+      else if kind == "red" then some (k, .reduce)
+      else if kind == "tr" then some (k, .staged .set 0)
+      else if kind == "mx" then some (k, .staged .set 2)
+      else if kind.startsWith "mm" then some (k, .staged (aop (kind.drop 2).toString) 1)
+      else if kind.startsWith "vw" then
+        let body := (kind.drop 2).toString
+        let o := (body.take (body.length - 1)).toString
+        let rhs : VRhs := if body.endsWith "s" then .scalar 0 else .tensor
+        some (k, .viewW (parseAxes arg) (wop o) rhs)
+      else none
+  | _ => none
+
+def runMapwide (kv : List (String × String)) : String := Id.run do
+  let some cfgName := getS kv "cfg" | return "bad-op"
+  let some cfg := Cfg.ofName cfgName | return "bad-op"
+  let some sz := getN kv "sz" | return "bad-op"
+  let some sds := getS kv "sdims" | return "bad-op"
+  let some mds := getS kv "mdims" | return "bad-op"
+  let some gds := getS kv "gdims" | return "bad-op"
+  let some opss := getS kv "ops" | return "bad-op"
+  let sd := parseDims sds
+  let n := prod sd
+  let V := cfg.native.lanes sz
+  let names : Nat → Name := fun k =>
+    if k == 0 then { dims := sd, isMap := false, aligned := V > 1 }
+    else if k == 1 then { dims := parseDims mds, isMap := true, aligned := false }
+    else { dims := parseDims gds, isMap := true, aligned := false }
+  let some prog := (opss.splitOn ",").mapM parseOp2 | return "bad-op"
+  let mut bufA : Array Fp := memArr n fun p => Fp.ofTok 0 p
+  let mut chain : UInt64 := 0
+  let mut stepNo := 0
+  for (k, o) in prog do
+    let nm := names k
+    let bA := bufA
+    let buf : Nat → Fp := fun p => bA.getD p 0
+    let bwin := 1 + k
+    let awin := 4 + k
+    -- operand 1 of the step: B of this name; for a view write with a tensor right-hand side, logical element j of B(seq…)
+    let opnd : Nat → Nat → Fp := match o with
+      | .viewW axs _ .tensor => fun _ j => Fp.ofTok bwin (ViewWrite.posOf nm.dims axs (ViewWrite.unflat (axs.map (·.ext)) j))
+      | _ => fun _ p => Fp.ofTok bwin p
+    let (M, N) : Nat × Nat := match nm.dims with
+      | [a, b] => (a, b)
+      | _ => (1, 1)
+    let stagedFn : Nat → (Nat → Fp) → Nat → Fp := fun tag cur p =>
+      let i := p / N
+      let j := p % N
+      if tag == 0 then cur (j * M + i)
+      else (List.range M).foldl (fun acc q => acc + Fp.ofTok awin (i * M + q) * (if tag == 2 then cur (q * N + j) else Fp.ofTok bwin (q * N + j))) 0
+    let kk := stepNo
+    let (s', _) := step2 Fp.ofInt (fun _ => Fp.ofTok 9 kk) opnd (fun _ => 0) V stagedFn nm k o
+      { buf := buf, rd := fun _ _ => 0, acc := 0 }
+    bufA := memArr n s'.buf
+    let cur := bufA
+    chain := hstep chain (digestMem n fun p => cur.getD p 0)
+    match o with
+    | .reduce => chain := hstep (hstep chain s'.acc.v0) s'.acc.v1
+    | _ => pure ()
+    stepNo := stepNo + 1
+  return s!"VAL={hex chain} SAME=1 route=mapwide"
 
 end Fastor.Driver
